@@ -140,6 +140,10 @@ def c01_3(ctx):
                     atoms.append(a)
 
         def val(env, text):
+            from ..au import _atom_key
+            k_, pos_ = _atom_key(ast.parse(text, mode='eval').body, N)
+            if k_ in env:
+                return env[k_] if pos_ else not env[k_]
             if text in env:
                 return env[text]
             na = N(negate(ast.parse(text, mode='eval').body))
